@@ -122,8 +122,11 @@ func c04FlushOrder(c *Ctx, rule string) {
 				return Cut
 			}
 		}
-		if r, ok := n.(*ast.ReturnStmt); ok && g.ReturnMayBeNil(r) {
-			return Hit
+		if r, ok := n.(*ast.ReturnStmt); ok {
+			if g.ReturnMayBeNil(r) {
+				return Hit
+			}
+			return Cut // an error return ends the path
 		}
 		return Go
 	}, func(b *cfg.Block) Verdict { return Hit })
@@ -222,11 +225,55 @@ func c04FlushOrder(c *Ctx, rule string) {
 			}
 		}
 		skipThen := endsWithContinue(ifs.Body)
+		// two-phase flush: the then-branch (or the code after a negative skip) collects the page into a
+		// slice that a later loop containing the write ranges over
+		collects := func(region ast.Node) bool {
+			hit := false
+			ast.Inspect(region, func(y ast.Node) bool {
+				as, ok := y.(*ast.AssignStmt)
+				if !ok || len(as.Lhs) != 1 {
+					return true
+				}
+				id, ok := as.Lhs[0].(*ast.Ident)
+				if !ok {
+					return true
+				}
+				if _, self := f.isSelfAppend(as, f.ObjOf(id)); !self {
+					return true
+				}
+				inspectBody(f.Decl.Body, func(z ast.Node) bool {
+					rs, ok := z.(*ast.RangeStmt)
+					if !ok || rs.Pos() < ifs.End() {
+						return true
+					}
+					if rid, ok := ast.Unparen(rs.X).(*ast.Ident); ok && f.ObjOf(rid) == f.ObjOf(id) {
+						for _, u := range updates {
+							if rs.Body.Pos() <= u.Pos() && u.End() <= rs.Body.End() {
+								hit = true
+							}
+						}
+					}
+					return true
+				})
+				return true
+			})
+			return hit
+		}
+		var afterSkip ast.Node
+		if loop := enclosingLoop(f.Decl.Body, ifs); loop != nil {
+			afterSkip = loop
+		}
 		switch {
 		case neg && skipThen && !writeInThen, !neg && writeInThen:
 			c.OK(rule, key, ifs.Pos(), 1, "a page is skipped iff it is not dirty")
+		case !neg && !skipThen && collects(ifs.Body):
+			c.OK(rule, key, ifs.Pos(), 2, "dirty pages are collected and the collection is written by a later loop")
+		case neg && skipThen && afterSkip != nil && collects(afterSkip):
+			c.OK(rule, key, ifs.Pos(), 2, "clean pages are skipped, the others are collected and written by a later loop")
+		case neg && writeInThen, !neg && skipThen && !writeInThen:
+			c.Fail(rule, key, ifs.Pos(), "the dirty test is inverted: dirty pages are skipped (never written) or only clean pages are rewritten")
 		default:
-			c.Fail(rule, key, ifs.Pos(), "the dirty test is inverted or misplaced: dirty pages are skipped (never written) or clean pages rewritten only")
+			c.Undecided(rule, key, "a dirty test in the flush whose relation to the page write is not recognised")
 		}
 		return true
 	})
